@@ -49,8 +49,22 @@ func (Driver) Batches(tier string) int {
 	return 16
 }
 
-// walkRoot draws the root value of a value case.
+// walkRoot draws the root value of a value case. One case in ten takes the
+// first draw as it is (leaves, nulls, unknowns and empty containers are roots
+// too); the others redraw up to four times until the root has members.
 func walkRoot(r *core.Rand) cty.Value {
+	keepAny := r.Chance(1, 10)
+	var v cty.Value
+	for try := 0; try < 5; try++ {
+		v = drawRoot(r)
+		if keepAny || len(children(v)) > 0 {
+			break
+		}
+	}
+	return v
+}
+
+func drawRoot(r *core.Rand) cty.Value {
 	depth := 1 + r.Intn(4)
 	if r.Chance(2, 3) {
 		depth = 3 + r.Intn(2)
